@@ -175,37 +175,40 @@ def run(ctx):
 
 
 def rewrap_sites(ctx):
-  """Distributed Shampoo re-wraps raw (payload, diagonal, bucket) leaves with the flag it quantised them with."""
-  import ast
+  """Distributed Shampoo re-wraps raw (payload, diagonal, bucket) leaves with the flag it quantised them with.
+
+  Decided on the constructor records of the quantized refresh path: every QuantizedValue built directly from three
+  raw leaves (not by from_float_value) must carry quantized_dtype = <payload>.dtype, shape = list(<payload>.shape)
+  and the same extract_diagonal flag that every from_float_value call of that path passes."""
+  from . import ds_common as D
+  from ..lib import econd_summary
   m = ctx.model
-  mi = m.module(MOD)
+  v = dict(scheduled=False, steps1=False, reuse=True, metrics=True)
   n = 0
   flags_q = set()
-  for node in ast.walk(mi.tree):
-    if isinstance(node, ast.Call):
-      fsrc = ast.unparse(node.func)
-      if fsrc == 'QuantizedValue.from_float_value' and (len(node.args) >= 3 or any(k.arg == 'extract_diagonal' for k in node.keywords)):
-        v = node.args[2] if len(node.args) >= 3 else [k.value for k in node.keywords if k.arg == 'extract_diagonal'][0]
-        flags_q.add(ast.unparse(v))
-  for fq_, fi in sorted(m.functions.items()):
-    if fi.module is not mi:
-      continue
-    if 'partition_spec' in fi.short or 'shape_and_dtype' in fi.short:
-      continue
-    for node in ast.walk(fi.node):
-      if isinstance(node, ast.Call) and ast.unparse(node.func) == 'QuantizedValue' and len(node.args) >= 5:
-        own = True
-        for ch in fi.children.values():
-          if ch.node.lineno <= node.lineno <= getattr(ch.node, 'end_lineno', ch.node.lineno):
-            own = False
-        if not own:
-          continue
-        n += 1
-        flag = ast.unparse(node.args[4])
-        dtype_src = ast.unparse(node.args[3])
-        pay = ast.unparse(node.args[0])
-        ok = flag == 'True' and flags_q == {'True'} and dtype_src == pay + '.dtype' and ast.unparse(node.args[5]) == f'list({pay}.shape)'
-        ctx.ob('C11.Q5', fi.short, f're-wrap {ast.unparse(node)[:60]}', ok,
-               f'raw quantised leaves must be re-wrapped as QuantizedValue(q, d, b, q.dtype, True, list(q.shape)) - the flag used when they were quantised ({sorted(flags_q)}); got `{ast.unparse(node)[:100]}`',
-               ctx.loc(fi, node), sample=ast.unparse(node)[:80])
+  wraps = []
+  for q in ('_quantized_matrix_inverse_pth_root_vmap', '_pmap_quantized_compute_preconditioners'):
+    fi = m.func(D.MOD, D.F + '.' + q)
+    ctx.analysed(fi)
+    ev = evaluator(m, opaque=D.OPAQUE | {'mi_pth_root'}, decide=D.make_decider(v, {'batch_axis_name': True}), summaries={'efficient_cond': econd_summary})
+    ev.run(fi)
+    for c in ev.calls:
+      if c.callee.endswith('QuantizedValue.from_float_value'):
+        flags_q.add(c.args.get('extract_diagonal'))
+      if c.callee.endswith('.QuantizedValue') and c.via == 'construct' and not c.caller.endswith('from_float_value'):
+        wraps.append((fi, c))
+  flags_ok = len(flags_q) == 1 and all(f is not None and is_const(f) for f in flags_q)
+  for fi, c in wraps:
+    a = c.args
+    pay = a.get('quantized', NONE)
+    n += 1
+    ok = flags_ok and a.get('extract_diagonal') in flags_q
+    okd = a.get('quantized_dtype', NONE).op == 'attr' and a['quantized_dtype'].args[0] is pay and a['quantized_dtype'].args[1] == 'dtype'
+    shp = a.get('shape', NONE)
+    oks = shp.op == 'call' and shp.args[0].op == 'builtin' and shp.args[0].args[0] == 'list' and len(shp.args[1]) == 1 and \
+        shp.args[1][0].op == 'attr' and shp.args[1][0].args[0] is pay and shp.args[1][0].args[1] == 'shape'
+    ctx.ob('C11.Q5', fi.short, f're-wrap of {show(pay, maxdepth=1)[-40:]}', ok and okd and oks,
+           f'raw quantised leaves must be re-wrapped as QuantizedValue(q, d, b, q.dtype, <flag used when quantising>, list(q.shape)); flags used when quantising: '
+           f'{[show(f) if f is not None else None for f in flags_q]}; got flag={show(a.get("extract_diagonal", NONE))}, dtype=`{show(a.get("quantized_dtype", NONE), maxdepth=2)}`, shape=`{show(shp, maxdepth=3)}`',
+           ctx.loc(fi, c.node) if c.node is not None else ctx.loc(fi), sample='QuantizedValue(q, d, b, q.dtype, True, list(q.shape))')
   ctx.need('C11.Q5', n, 2, 'QuantizedValue re-wrap sites in distributed_shampoo')
